@@ -108,6 +108,12 @@ struct Handle {
     ptr: NodePtr,
     content: Content,
     alive: bool,
+    /// what the history implies about the atom's storage, by the representation rules of the
+    /// pinned tree (inline iff created from bytes / a number that is a canonical small integer,
+    /// or as such a slice of an inline atom; concat results, slices of heap atoms, points and
+    /// preserved return values live on the heap). Used only to decide whether a heap growth
+    /// belongs to the listed finding - never read from the allocator under test.
+    inline: bool,
 }
 
 enum Cp {
@@ -213,7 +219,7 @@ pub fn run_history(case: &Case, ctx: &Ctx, mode: Mode) -> (Outcome, Trajectory) 
         // expected deltas by the model: (atoms, pairs, heap); None = op changes no counts by itself
         // result: Ok(Some(new handle content, ptr)) / Ok(None) / Err
         enum Res {
-            NewHandle(NodePtr, Content),
+            NewHandle(NodePtr, Content, bool),
             Nothing,
             Failed(EvalErr),
             Skipped,
@@ -224,12 +230,14 @@ pub fn run_history(case: &Case, ctx: &Ctx, mode: Mode) -> (Outcome, Trajectory) 
         // explicit "counts := snapshot" transition
         let mut set_counts: Option<(u64, u64, u64)> = None;
         let mut known_class_hit = false;
+        // this call has the shape of the listed finding (by the history, not by what the allocator did)
+        let mut shape_hit = false;
 
         let res: Res = match op {
             Op::NewAtom(b) => {
                 delta = (1, 0, b.len() as u64);
                 match a.new_atom(b) {
-                    Ok(p) => Res::NewHandle(p, Content::Atom(b.clone())),
+                    Ok(p) => Res::NewHandle(p, Content::Atom(b.clone()), small_int_view(b).is_some()),
                     Err(e) => Res::Failed(e),
                 }
             }
@@ -238,7 +246,7 @@ pub fn run_history(case: &Case, ctx: &Ctx, mode: Mode) -> (Outcome, Trajectory) 
                 let bytes = minimal_int_bytes(false, &v.to_be_bytes());
                 delta = (1, 0, bytes.len() as u64);
                 match a.new_small_number(v) {
-                    Ok(p) => Res::NewHandle(p, Content::Atom(bytes)),
+                    Ok(p) => Res::NewHandle(p, Content::Atom(bytes), true),
                     Err(e) => Res::Failed(e),
                 }
             }
@@ -246,7 +254,10 @@ pub fn run_history(case: &Case, ctx: &Ctx, mode: Mode) -> (Outcome, Trajectory) 
                 let bytes = minimal_int_bytes(false, &v.to_be_bytes());
                 delta = (1, 0, bytes.len() as u64);
                 match a.new_u64(*v) {
-                    Ok(p) => Res::NewHandle(p, Content::Atom(bytes)),
+                    Ok(p) => {
+                        let inl = small_int_view(&bytes).is_some();
+                        Res::NewHandle(p, Content::Atom(bytes), inl)
+                    }
                     Err(e) => Res::Failed(e),
                 }
             }
@@ -254,7 +265,10 @@ pub fn run_history(case: &Case, ctx: &Ctx, mode: Mode) -> (Outcome, Trajectory) 
                 let bytes = minimal_int_bytes(*v < 0, &v.unsigned_abs().to_be_bytes());
                 delta = (1, 0, bytes.len() as u64);
                 match a.new_i64(*v) {
-                    Ok(p) => Res::NewHandle(p, Content::Atom(bytes)),
+                    Ok(p) => {
+                        let inl = small_int_view(&bytes).is_some();
+                        Res::NewHandle(p, Content::Atom(bytes), inl)
+                    }
                     Err(e) => Res::Failed(e),
                 }
             }
@@ -262,7 +276,10 @@ pub fn run_history(case: &Case, ctx: &Ctx, mode: Mode) -> (Outcome, Trajectory) 
                 let bytes = minimal_int_bytes(*neg, mag);
                 delta = (1, 0, bytes.len() as u64);
                 match a.new_number(bigint(*neg, mag)) {
-                    Ok(p) => Res::NewHandle(p, Content::Atom(bytes)),
+                    Ok(p) => {
+                        let inl = small_int_view(&bytes).is_some();
+                        Res::NewHandle(p, Content::Atom(bytes), inl)
+                    }
                     Err(e) => Res::Failed(e),
                 }
             }
@@ -270,7 +287,10 @@ pub fn run_history(case: &Case, ctx: &Ctx, mode: Mode) -> (Outcome, Trajectory) 
                 let bytes = minimal_int_bytes(*neg, mag);
                 delta = (1, 0, bytes.len() as u64);
                 match a.new_malachite_number(malachite(*neg, mag)) {
-                    Ok(p) => Res::NewHandle(p, Content::Atom(bytes)),
+                    Ok(p) => {
+                        let inl = small_int_view(&bytes).is_some();
+                        Res::NewHandle(p, Content::Atom(bytes), inl)
+                    }
                     Err(e) => Res::Failed(e),
                 }
             }
@@ -278,7 +298,7 @@ pub fn run_history(case: &Case, ctx: &Ctx, mode: Mode) -> (Outcome, Trajectory) 
                 let g = &g1s[*i as usize % g1s.len()];
                 delta = (1, 0, 48);
                 match a.new_g1(g.clone()) {
-                    Ok(p) => Res::NewHandle(p, Content::Atom(g.to_bytes().to_vec())),
+                    Ok(p) => Res::NewHandle(p, Content::Atom(g.to_bytes().to_vec()), false),
                     Err(e) => Res::Failed(e),
                 }
             }
@@ -286,7 +306,7 @@ pub fn run_history(case: &Case, ctx: &Ctx, mode: Mode) -> (Outcome, Trajectory) 
                 let g = &g2s[*i as usize % g2s.len()];
                 delta = (1, 0, 96);
                 match a.new_g2(g.clone()) {
-                    Ok(p) => Res::NewHandle(p, Content::Atom(g.to_bytes().to_vec())),
+                    Ok(p) => Res::NewHandle(p, Content::Atom(g.to_bytes().to_vec()), false),
                     Err(e) => Res::Failed(e),
                 }
             }
@@ -299,7 +319,7 @@ pub fn run_history(case: &Case, ctx: &Ctx, mode: Mode) -> (Outcome, Trajectory) 
                     let ri = live[*r as usize % live.len()];
                     delta = (0, 1, 0);
                     match a.new_pair(hs[li].ptr, hs[ri].ptr) {
-                        Ok(p) => Res::NewHandle(p, Content::Pair(li, ri)),
+                        Ok(p) => Res::NewHandle(p, Content::Pair(li, ri), false),
                         Err(e) => Res::Failed(e),
                     }
                 }
@@ -331,7 +351,7 @@ pub fn run_history(case: &Case, ctx: &Ctx, mode: Mode) -> (Outcome, Trajectory) 
                         }
                     };
                     delta = (1, 0, 0);
-                    let parent_small = hs[hi].ptr.object_type() == ObjectType::SmallAtom;
+                    let parent_small = hs[hi].inline;
                     match a.new_substr(hs[hi].ptr, s, e) {
                         Ok(p) => {
                             let slice = bytes[s as usize..e as usize].to_vec();
@@ -339,12 +359,14 @@ pub fn run_history(case: &Case, ctx: &Ctx, mode: Mode) -> (Outcome, Trajectory) 
                             // a canonical small integer is copied to the heap
                             if parent_small && small_int_view(&slice).is_none() && !slice.is_empty() {
                                 out.count("shape.substr_of_inline_noncanonical", 1);
+                                shape_hit = true;
                                 if substr_copy_known.is_some() {
                                     delta = (1, 0, slice.len() as u64);
                                     known_class_hit = true;
                                 }
                             }
-                            Res::NewHandle(p, Content::Atom(slice))
+                            let inl = parent_small && small_int_view(&slice).is_some();
+                            Res::NewHandle(p, Content::Atom(slice), inl)
                         }
                         Err(e2) => {
                             // predicted heap for the listed deviation (so that a cap hit there is expected)
@@ -370,18 +392,21 @@ pub fn run_history(case: &Case, ctx: &Ctx, mode: Mode) -> (Outcome, Trajectory) 
                         Res::Skipped
                     } else {
                         delta = (1, 0, 0);
-                        let parent_small = hs[hi].ptr.object_type() == ObjectType::SmallAtom;
+                        let parent_small = hs[hi].inline;
                         let slice = bytes[1..bytes.len() - 1].to_vec();
-                        if parent_small && small_int_view(&slice).is_none() && !slice.is_empty() && substr_copy_known.is_some() {
+                        let shape = parent_small && small_int_view(&slice).is_none() && !slice.is_empty();
+                        if shape && substr_copy_known.is_some() {
                             delta = (1, 0, slice.len() as u64);
                         }
                         match a.new_substr(hs[hi].ptr, 1, bytes.len() as u32 - 1) {
                             Ok(p) => {
-                                if delta.2 > 0 {
-                                    known_class_hit = true;
+                                if shape {
+                                    shape_hit = true;
                                     out.count("shape.substr_of_inline_noncanonical", 1);
+                                    known_class_hit = substr_copy_known.is_some();
                                 }
-                                Res::NewHandle(p, Content::Atom(slice))
+                                let inl = parent_small && small_int_view(&slice).is_some();
+                                Res::NewHandle(p, Content::Atom(slice), inl)
                             }
                             Err(e) => Res::Failed(e),
                         }
@@ -397,7 +422,7 @@ pub fn run_history(case: &Case, ctx: &Ctx, mode: Mode) -> (Outcome, Trajectory) 
                     expect_arg_error = true;
                     delta = (1, 0, 0);
                     match a.new_substr(hs[hi].ptr, *s % 4, *e % 4) {
-                        Ok(p) => Res::NewHandle(p, Content::Atom(vec![])),
+                        Ok(p) => Res::NewHandle(p, Content::Atom(vec![]), false),
                         Err(e2) => Res::Failed(e2),
                     }
                 }
@@ -420,8 +445,14 @@ pub fn run_history(case: &Case, ctx: &Ctx, mode: Mode) -> (Outcome, Trajectory) 
                     }
                     delta = (1, 0, size as u64);
                     let ptrs: Vec<NodePtr> = idx.iter().map(|i| hs[*i].ptr).collect();
+                    // no operand: nil; one operand: the operand itself; otherwise a fresh heap atom
+                    let inl = match idx.len() {
+                        0 => true,
+                        1 => hs[idx[0]].inline,
+                        _ => false,
+                    };
                     match a.new_concat(size, &ptrs) {
-                        Ok(p) => Res::NewHandle(p, Content::Atom(bytes)),
+                        Ok(p) => Res::NewHandle(p, Content::Atom(bytes), inl),
                         Err(e) => Res::Failed(e),
                     }
                 }
@@ -447,7 +478,7 @@ pub fn run_history(case: &Case, ctx: &Ctx, mode: Mode) -> (Outcome, Trajectory) 
                     expect_arg_error = true;
                     delta = (1, 0, size as u64);
                     match a.new_concat(size, &ptrs) {
-                        Ok(p) => Res::NewHandle(p, Content::Atom(vec![])),
+                        Ok(p) => Res::NewHandle(p, Content::Atom(vec![]), false),
                         Err(e) => Res::Failed(e),
                     }
                 }
@@ -553,7 +584,8 @@ pub fn run_history(case: &Case, ctx: &Ctx, mode: Mode) -> (Outcome, Trajectory) 
                             }
                             hs[ri].alive = false;
                             invalidate_after(&mut cps, ci);
-                            Res::NewHandle(n, ret_content)
+                            // (a preserved atom is re-created on the heap)
+                            Res::NewHandle(n, ret_content, false)
                         }
                         Err(e) => Res::Failed(e),
                     }
@@ -635,6 +667,12 @@ pub fn run_history(case: &Case, ctx: &Ctx, mode: Mode) -> (Outcome, Trajectory) 
                 }
             }
             Res::Nothing | Res::NewHandle(..) => {
+                if let Res::NewHandle(p, Content::Atom(_), inl) = &res
+                    && (p.object_type() == ObjectType::SmallAtom) != *inl
+                {
+                    // diagnostic only: the representation is internal, not part of any property
+                    out.count("shape.repr_differs_from_history_rules", 1);
+                }
                 if mode == Mode::C13 && !exceeded.is_empty() && creates_counts {
                     let mut v = opclass(Violation::new(
                         "cap-exceeded-must-fail",
@@ -654,11 +692,12 @@ pub fn run_history(case: &Case, ctx: &Ctx, mode: Mode) -> (Outcome, Trajectory) 
                     m_pairs += delta.1;
                     m_heap += delta.2;
                 }
-                if let Res::NewHandle(p, c) = res {
+                if let Res::NewHandle(p, c, inline) = res {
                     hs.push(Handle {
                         ptr: p,
                         content: c,
                         alive: true,
+                        inline,
                     });
                 }
                 if known_class_hit && mode == Mode::C12 && let Some(k) = &substr_copy_known {
@@ -681,7 +720,7 @@ pub fn run_history(case: &Case, ctx: &Ctx, mode: Mode) -> (Outcome, Trajectory) 
                 if matches!(op, Op::NewSubstr(..) | Op::SubstrInner(_)) {
                     // classify the shape so that the listed finding is matched narrowly
                     let d_heap = after.2 as i64 - m_heap as i64;
-                    if after.0 == m_atoms && after.1 == m_pairs && (1..=3).contains(&d_heap) && out.counters.get("shape.substr_of_inline_noncanonical").is_some() {
+                    if after.0 == m_atoms && after.1 == m_pairs && (1..=3).contains(&d_heap) && shape_hit {
                         v = v.with("parent", "SmallAtom").with("slice", "non-canonical-small");
                     }
                 }
@@ -700,7 +739,7 @@ pub fn run_history(case: &Case, ctx: &Ctx, mode: Mode) -> (Outcome, Trajectory) 
                 "counter-within-cap",
                 format!("step {step} {kind}: counts {after:?} exceed a cap (atoms/pairs {MAX_ATOMS}, heap limit {limit})"),
             ));
-            if known_class_hit || matches!(op, Op::NewSubstr(..) | Op::SubstrInner(_)) && out.counters.get("shape.substr_of_inline_noncanonical").is_some() {
+            if known_class_hit || shape_hit {
                 v = v.with("parent", "SmallAtom").with("slice", "non-canonical-small");
             }
             out.fail(v);
